@@ -35,8 +35,14 @@ PROPS = {
                  "a view and its parent are modelled as separate records (no aliasing): a MemoryIO used as its own view is covered by the bounded layer on real objects"],
     ),
     "C04": dict(
-        level="proof",
+        level="exploration",
         specs=["specs.c04_minimise"],
         bounded=["bounded.c04_tables"],
+    ),
+    "C12": dict(
+        level="proof",
+        specs=["specs.c12_regions"],
+        bounded=["bounded.c12_regions"],
+        trusted=["the reading of a region word in specs/c12_regions.py::selects (bits 31:24 / 23:18 block base, 17:16 level, 15:0 sub-block select), transcribed from the SC&MP documentation"],
     ),
 }
